@@ -1,6 +1,6 @@
 (** Pinned statements of the C20 property theorems: compiled on every check, so a theorem
     cannot be weakened silently. *)
-From V Require Import Base.Util C20.Model C20.Properties.
+From V Require Import Base.Util C20.Model C20.StrProofs C20.Properties.
 
 Check (C20_normalize_idempotent : forall p, normalize (normalize p) = normalize p).
 Check (C20_normalize_no_dots : forall p, Forall (fun c => c <> Cur /\ c <> Par) (normalize p)).
@@ -11,6 +11,12 @@ Check (C20_roundtrip : forall a b,
 Check (C20_relative_starts_dot : forall a b r,
   abs_ok a = true -> abs_ok b = true -> relative a b = Some r ->
   r = [] \/ exists t, r = Cur :: t \/ r = Par :: t).
+Check (C20_relative_empty_iff : forall a b,
+  abs_ok a = true -> abs_ok b = true ->
+  (relative a b = Some [] <-> normalize b = pop (normalize a))).
+Print Assumptions C20_relative_empty_iff.
+Check (C20_components_render : forall cs, canonical cs = true -> components (render cs) = cs).
+Print Assumptions C20_components_render.
 Print Assumptions C20_normalize_idempotent.
 Print Assumptions C20_normalize_no_dots.
 Print Assumptions C20_relative_total.
